@@ -24,7 +24,8 @@ type Job struct {
 	Bound        int            `json:"bound"`  // preemption bound; <0 unbounded
 	Budget       int            `json:"budget"` // max executions, 0 = none
 	StopFirst    bool           `json:"stop_first"`
-	DeadlineUnix int64          `json:"deadline_unix"` // stop enumerating after this time (exhaustive=false)
+	Prune        bool           `json:"prune,omitempty"` // unbounded search with global-state-key pruning (only with Bound < 0)
+	DeadlineUnix int64          `json:"deadline_unix"`   // stop enumerating after this time (exhaustive=false)
 }
 
 type JobResult struct {
